@@ -124,6 +124,70 @@ def _path_dir_steps(tree):
     return out
 
 
+def _bracket_sites():
+    """every `with change_to_path_dir(X)` / `with X.relative_path_context()` of the package:
+    (module.function, the bracket expression, the statements of the body up to 3, unparsed, ` ; `-joined and cut).
+    Dropping a bracket, bracketing another path, or moving the resolution of the values out of the body changes the table."""
+    out = []
+    pkg = os.path.join(REPO, "jsonargparse")
+    for fname in sorted(os.listdir(pkg)):
+        if not fname.endswith(".py"):
+            continue
+        try:
+            tree = ast.parse(open(os.path.join(pkg, fname)).read())
+        except SyntaxError:
+            continue
+
+        def visit(node, owner):
+            for ch in ast.iter_child_nodes(node):
+                name = owner
+                if isinstance(ch, (ast.FunctionDef, ast.AsyncFunctionDef, ast.ClassDef)):
+                    name = (owner + "." if owner else "") + ch.name
+                if isinstance(ch, ast.With):
+                    for item in ch.items:
+                        src = ast.unparse(item.context_expr)
+                        if "change_to_path_dir(" in src or ".relative_path_context(" in src:
+                            body = " ; ".join(ast.unparse(b).split("\n")[0].strip()[:90] for b in ch.body[:3])
+                            out.append((fname[:-3] + ":" + owner, src, body))
+                visit(ch, name)
+
+        visit(tree, "")
+    return out
+
+
+def _statement_heads(fn):
+    """first line of every statement of a function (docstring excluded), in source order"""
+    sts = [n for n in ast.walk(fn) if isinstance(n, ast.stmt) and n is not fn]
+    sts.sort(key=lambda n: (n.lineno, n.col_offset))
+    out = []
+    for n in sts:
+        if isinstance(n, ast.Expr) and isinstance(n.value, ast.Constant) and isinstance(n.value.value, str):
+            continue
+        out.append(ast.unparse(n).split("\n")[0].strip()[:120])
+    return out
+
+
+def _init_bookkeeping(fn: ast.FunctionDef):
+    """the statements of Path.__init__ that decide relative / absolute / cwd (both the `Path` and the `str` branch),
+    unparsed, in source order: assignments to path, cwd, abs_path, is_absolute, self._relative/_absolute/_cwd/_std_io
+    and the `isinstance` / `"://"`-free branch conditions they sit under"""
+    keep = {"path", "cwd", "abs_path", "is_absolute"}
+    out = []
+    nodes = [n for n in ast.walk(fn) if isinstance(n, (ast.Assign, ast.If))]
+    nodes.sort(key=lambda n: (n.lineno, n.col_offset))
+    for n in nodes:
+        if isinstance(n, ast.If):
+            src = ast.unparse(n.test)
+            if "isinstance(path" in src or "_file_scheme" in src or "cwd is None" in src or src == "path == '-'":
+                out.append("if " + src)
+        else:
+            t = n.targets[0]
+            tn = t.id if isinstance(t, ast.Name) else ("self." + t.attr if isinstance(t, ast.Attribute) and isinstance(t.value, ast.Name) and t.value.id == "self" else None)
+            if tn in keep or tn in ("self._relative", "self._absolute", "self._cwd", "self._std_io"):
+                out.append("%s = %s" % (tn, ast.unparse(n.value)))
+    return out
+
+
 def probe_check_mode(check, alphabet):
     chars = alphabet + "".join(c for c in OUTSIDERS if c not in alphabet)
 
@@ -200,5 +264,23 @@ def generate(problems):
         steps = []
     body += "/-- the statements of `change_to_path_dir` that decide which directory is entered and restored, in source order -/\n"
     body += "def pathDirSteps : List String := [%s]\n" % ", ".join(lean_str(x) for x in steps)
+    sites = _bracket_sites()
+    if not sites:
+        problems.append("PathFlags: no use of change_to_path_dir found in the package")
+    body += "/-- every `with change_to_path_dir(…)` / `with ….relative_path_context()` of the package: (module:function, bracket, first statements of the body) -/\n"
+    body += "def pathBracketSites : List (String × String × String) := [\n  %s]\n" % ",\n  ".join("(%s, %s, %s)" % (lean_str(a), lean_str(b), lean_str(c)) for a, b, c in sites)
+    book = _init_bookkeeping(fns["__init__"])
+    body += "/-- the statements of `Path.__init__` that decide `relative`, `absolute`, `cwd`, in source order -/\n"
+    body += "def pathInitBook : List String := [\n  %s]\n" % ",\n  ".join(lean_str(x) for x in book)
+    pvc = next((n for n in tree.body if isinstance(n, ast.FunctionDef) and n.name == "parse_value_or_config"), None)
+    atree = ast.parse(open(os.path.join(REPO, "jsonargparse", "_actions.py")).read())
+    acl = next((n for n in atree.body if isinstance(n, ast.ClassDef) and n.name == "_ActionConfigLoad"), None)
+    lc = next((n for n in acl.body if isinstance(n, ast.FunctionDef) and n.name == "_load_config"), None) if acl else None
+    if pvc is None or lc is None:
+        problems.append("PathFlags: cannot find parse_value_or_config / _ActionConfigLoad._load_config")
+    body += "/-- every statement (first line) of `parse_value_or_config`: which strings are tried as a config path, in which bracket the file is read -/\n"
+    body += "def pathValueOrConfig : List String := [\n  %s]\n" % ",\n  ".join(lean_str(x) for x in (_statement_heads(pvc) if pvc else []))
+    body += "/-- every statement (first line) of `_ActionConfigLoad._load_config` -/\n"
+    body += "def pathLoadConfig : List String := [\n  %s]\n" % ",\n  ".join(lean_str(x) for x in (_statement_heads(lc) if lc else []))
     body += "end Jap.Gen\n"
     write_if_changed("PathFlags.lean", body)
